@@ -3,5 +3,71 @@ package main
 // controlSources: overlay files (path relative to the repo) with one tiny
 // violating construct per rule whose expected violation count on a correct tree
 // is zero. They must be reported on every run; reports located in them are
-// then removed from the verdict.
-var controlSources = map[string]string{}
+// then removed from the verdict. Never written to disk.
+var controlSources = map[string]string{
+	"actions/zz_verif_controls.go": `package actions
+
+import (
+	"context"
+	"time"
+
+	"github.com/google/uuid"
+
+	"go.6river.tech/mmmbbb/ent"
+	"go.6river.tech/mmmbbb/ent/delivery"
+	"go.6river.tech/mmmbbb/ent/subscription"
+)
+
+// C01.1 / C02.2: an unlisted, unscoped writer retires deliveries
+func zzVerifControlRetire(ctx context.Context, tx *ent.Tx) error {
+	_, err := tx.Delivery.Update().Where(delivery.AttemptsGT(3)).SetCompletedAt(time.Now()).Save(ctx)
+	return err
+}
+
+// C03.1: completion undone outside seek
+func zzVerifControlResurrect(ctx context.Context, tx *ent.Tx, id uuid.UUID) error {
+	return tx.Delivery.UpdateOneID(id).ClearCompletedAt().Exec(ctx)
+}
+
+// C09.3: wake-up outside a commit hook
+func zzVerifControlWake(id uuid.UUID) {
+	WakePublishListeners(false, id)
+}
+
+// C09.1: storage error dropped inside a transaction
+func zzVerifControlDropError(ctx context.Context, tx *ent.Tx, id uuid.UUID) error {
+	_ = tx.Delivery.UpdateOneID(id).SetAttemptAt(time.Now()).Exec(ctx)
+	return nil
+}
+
+// C12.1: a subscription resolved by name without the live filter
+func zzVerifControlLookup(ctx context.Context, tx *ent.Tx, name string) (*ent.Subscription, error) {
+	return tx.Subscription.Query().Where(subscription.Name(name)).Only(ctx)
+}
+
+// C10.6: waiter map touched without nmu
+func zzVerifControlUnlocked(id uuid.UUID) int {
+	return len(pubWaiters[id])
+}
+
+// C03.3 / C06.1: delivery creation and dead-lettering from an unlisted caller
+func zzVerifControlCallers(ctx context.Context, tx *ent.Tx, s *ent.Subscription, m *ent.Message) error {
+	if _, err := deliverToSubscription(ctx, tx, s, m, time.Now(), "x"); err != nil {
+		return err
+	}
+	return deadLetterDelivery(ctx, tx, deadLetterData{}, time.Now(), "x")
+}
+`,
+	"faults/zz_verif_controls.go": `package faults
+
+// C18.1: plain access to the shared remaining count
+func zzVerifControlPlainCount(d *Description) int64 {
+	return d.Count
+}
+
+// C18.3: fault table read without the lock
+func zzVerifControlUnlocked(s *Set, op string) int {
+	return len(s.faults[op])
+}
+`,
+}
